@@ -3,7 +3,6 @@ package main
 // C17 Render sends the given status, the right content type and a faithful body.
 
 import (
-	"go/token"
 	"go/types"
 	"strings"
 
@@ -32,6 +31,44 @@ func checkC17(c *Check) {
 		{"Binary", "octet-stream", false, "", "", ""},
 		{"PlainText", "text/plain", true, "", "", ""},
 	}
+	rnFn := p.Fn("flamego", "Renderer")
+	// the field(s) of render that hold a configured option: opts.<name>, or a field of render
+	// that Renderer fills from the (defaulted) option of that name
+	optField := func(recv VM, name string) VM {
+		direct := vField(recv, "opts", name)
+		var alt []string
+		if rnFn != nil {
+			for _, l := range withLits(rnFn) {
+				allInstrs(l, func(in ssa.Instruction) {
+					st, ok := in.(*ssa.Store)
+					if !ok {
+						return
+					}
+					fa, ok := st.Addr.(*ssa.FieldAddr)
+					if !ok {
+						return
+					}
+					if al, isAl := strip(fa.X).(*ssa.Alloc); !isAl || namedName(derefT(al.Type())) != "render" {
+						return
+					}
+					if vFieldNamed(name)(st.Val) {
+						alt = append(alt, fieldOf(fa).Name())
+					}
+				})
+			}
+		}
+		return func(v ssa.Value) bool {
+			if direct(v) {
+				return true
+			}
+			for _, f := range alt {
+				if vField(recv, f)(v) {
+					return true
+				}
+			}
+			return false
+		}
+	}
 	for _, sp := range specs {
 		m := p.Meth("flamego", "render", sp.name)
 		if m == nil {
@@ -54,10 +91,19 @@ func checkC17(c *Check) {
 			setCT = ci
 			ct := a[2]
 			if sp.charset {
-				if b, ok := strip(ct).(*ssa.BinOp); ok && b.Op == token.ADD {
-					if s, isS := constStr(b.X); isS && strings.Contains(s, sp.marker) && strings.Contains(s, "charset=") && vField(recv, "opts", "Charset")(b.Y) {
-						okCT = true
+				// constant text naming the format and "charset=", then the configured charset
+				parts := concatParts(ct)
+				text := ""
+				allConst := len(parts) >= 2
+				for _, pt := range parts[:len(parts)-1] {
+					s, isS := constStr(pt)
+					if !isS {
+						allConst = false
 					}
+					text += s
+				}
+				if allConst && strings.Contains(text, sp.marker) && strings.HasSuffix(text, "charset=") && optField(recv, "Charset")(parts[len(parts)-1]) {
+					okCT = true
 				}
 			} else if s, isS := constStr(ct); isS && strings.Contains(s, sp.marker) {
 				okCT = true
@@ -109,8 +155,8 @@ func checkC17(c *Check) {
 		// ---- R2 indentation
 		if sp.indentCall != "" && encV != nil && body != nil {
 			c.curRule = "C17.R2"
-			field := vField(recv, "opts", sp.indentField)
-			nonEmpty := edgesWhere(m, cCmp(token.EQL, field, vConstStr("")), false)
+			field := optField(recv, sp.indentField)
+			nonEmpty := edgesWhere(m, cEmptyStr(field), false)
 			isIndent := func(in ssa.Instruction) bool {
 				ci, ok := in.(ssa.CallInstruction)
 				if !ok || callName(ci.Common()) != sp.indentCall {
@@ -143,7 +189,7 @@ func checkC17(c *Check) {
 				return
 			}
 			if f := fieldOf(strip(s.Addr)); f != nil && f.Name() == "Charset" && vConstStr("utf-8")(s.Val) {
-				g := edgesWhere(l, cCmp(token.EQL, vFieldNamed("Charset"), vConstStr("")), true)
+				g := edgesWhere(l, cEmptyStr(vFieldNamed("Charset")), true)
 				if ok2, _ := guardedBy(l, g, isInstr(in)); ok2 && len(g) > 0 {
 					def = true
 				}
@@ -187,6 +233,11 @@ func checkC17(c *Check) {
 								okW = vCall("(flamego.Context).ResponseWriter", vParam(l, 0))(st.Val)
 							case "opts":
 								okO = true
+							default:
+								// the options spread over fields of their own
+								if vFieldNamed("Charset")(st.Val) {
+									okO = true
+								}
 							}
 						}
 					}
